@@ -22,6 +22,7 @@ ASSUMPTIONS = [
     "float()/int() of numeric strings is not modelled (generated strings are non-numeric); float() of ints is exact below 2**53",
     "store.w keys are tuples of str (keys that differ only by type collapse under str() and are excluded); store values are floats or small ints",
     "json.loads(json.dumps(v)) == v for JSON-shaped v (CPython float repr round-trip), and json.dumps is a function of the ordered value",
+    "load_latest_snapshot is a function of the file content and the fresh state only (no state carried between calls in one process): checked by histories of several loads of one unchanged file with in-place mutation of every container handed out by earlier loads, plus an object-identity walk",
     "atomic-write temporaries have the shape <final>.<8 chars without '.'> (isAtomicTemp) — decided by Lean on every name the real _make_tmp / a writer killed at os.replace leaves behind",
     "snapshot file names: str.isdigit is modelled on ASCII digits; os.path.getmtime does not fail; the listing order is os.listdir's (passed to the model)",
     "the write→load→write fixpoint is claimed for str version_etag and a dict-or-absent graph.meta (a truthy non-dict meta takes the writer's fallback branch; negation witness C06_fixpoint_needs_meta_dict)",
@@ -49,7 +50,7 @@ MODELLED = {
         "_pick_latest_snapshot_path", "_graph_bounds_from_cfg", "_round6", "_clamp", "_edge_id",
         "_sanitize_gel_for_write", "_sanitize_gel_for_load", "_export_store_for_snapshot",
         "_import_store_from_snapshot", "write_snapshot", "load_latest_snapshot", "_write_sidecar_meta",
-        "_set_state_field", "_snapshot_path",
+        "_set_state_field", "_snapshot_path", "_read_header_payload",
     ],
     "clematis/io/atomic.py": ["_make_tmp"],
 }
@@ -831,6 +832,330 @@ class ChainComp(Wrapped):
             yield c
 
 
+
+# --------------------------------------------------------------------------
+# component 1b: HISTORIES — several loads of one unchanged file in one process, with in-place
+# mutation of the earlier loaded states in between (stale-state / aliasing bugs)
+# --------------------------------------------------------------------------
+
+MUT_OPS = ["node_field", "node_nested", "node_add", "node_del", "edge_attrs", "edge_field", "edge_add", "edge_del",
+           "meta_append", "meta_field", "store_set", "store_clear", "store_nested", "graph_key"]
+
+
+def gen_rich_gel(rng: random.Random, lo: float, hi: float) -> dict:
+    """Graphs whose loaded form is full of mutable containers: dict node records with nested
+    containers, dict `attrs` on edges, non-empty meta lists."""
+    ids = rng.sample([i for i in IDS if i], rng.choice([2, 3, 4]))
+    recs = [{"id": i, "label": "L" + i, "attrs": {"tags": ["t", i], "n": rng.choice([1, 2.5, None])}} for i in ids]
+    nodes: Any = {r["id"]: r for r in recs} if rng.random() < 0.6 else recs
+    eds = []
+    for _ in range(rng.choice([1, 2, 3, 4])):
+        a, b = rng.choice(ids), rng.choice(ids)
+        eds.append({"src": a, "dst": b, "rel": rng.choice(RELS[:3]), "weight": gen_weight(rng, lo, hi, False),
+                    "attrs": rng.choice([{"k": [1, 2], "d": {"x": 1}}, {"seen": 3}, {}]),
+                    "updated_at": rng.choice([None, "2024-01-01T00:00:00Z"])})
+    edges: Any = eds if rng.random() < 0.5 else {"e%d" % j: e for j, e in enumerate(eds)}
+    meta = {"merges": rng.choice([[], [["a", "b"]]]), "splits": rng.choice([[], [{"of": "a"}]]),
+            "promotions": rng.choice([[], ["p1"], [{"id": "c1", "members": ["a", "b"]}]]),
+            "concept_nodes_count": rng.choice([0, 2])}
+    return {"nodes": nodes, "edges": edges, "meta": meta}
+
+
+def _graph_of(state):
+    return sget(state, "graph")
+
+
+def apply_mutation(state, op: dict) -> bool:
+    """In-place mutation of a loaded state (never touches the file). True when something changed."""
+    g = _graph_of(state)
+    k, i = op["op"], op["i"]
+    store = sget(state, "store")
+    try:
+        if k.startswith("node") and isinstance(g, dict) and isinstance(g.get("nodes"), dict):
+            nodes = g["nodes"]
+            keys = list(nodes.keys())
+            if k == "node_add":
+                nodes["zz_mut%d" % i] = {"id": "zz_mut", "label": "MUT"}
+                return True
+            if not keys:
+                return False
+            nk = keys[i % len(keys)]
+            if k == "node_del":
+                del nodes[nk]
+                return True
+            rec = nodes[nk]
+            if k == "node_field" and isinstance(rec, dict):
+                rec["label"] = "MUT%d" % i
+                return True
+            if k == "node_nested" and isinstance(rec, dict):
+                a = rec.get("attrs")
+                if isinstance(a, dict):
+                    if isinstance(a.get("tags"), list):
+                        a["tags"].append("mut")
+                    else:
+                        a["mut"] = i
+                    return True
+                for v in rec.values():
+                    if isinstance(v, list):
+                        v.append("mut")
+                        return True
+                    if isinstance(v, dict):
+                        v["mut"] = i
+                        return True
+            return False
+        if k.startswith("edge") and isinstance(g, dict) and isinstance(g.get("edges"), dict):
+            edges = g["edges"]
+            keys = list(edges.keys())
+            if k == "edge_add":
+                edges["m→n%d" % i] = {"src": "m", "dst": "n%d" % i, "rel": "mut", "weight": 0.5, "updated_at": None, "attrs": {}, "id": "m→n%d" % i}
+                return True
+            if not keys:
+                return False
+            ek = keys[i % len(keys)]
+            if k == "edge_del":
+                del edges[ek]
+                return True
+            rec = edges[ek]
+            if k == "edge_field" and isinstance(rec, dict):
+                rec["weight"] = 0.111111 if rec.get("weight") != 0.111111 else 0.222222
+                rec["rel"] = "mutrel"
+                return True
+            if k == "edge_attrs" and isinstance(rec, dict):
+                a = rec.get("attrs")
+                if isinstance(a, dict):
+                    for v in a.values():
+                        if isinstance(v, list):
+                            v.append("mut")
+                            return True
+                    a["mut"] = i
+                    return True
+                if isinstance(a, list):
+                    a.append("mut")
+                    return True
+            return False
+        if k.startswith("meta") and isinstance(g, dict) and isinstance(g.get("meta"), dict):
+            m = g["meta"]
+            if k == "meta_append":
+                name = ["promotions", "merges", "splits"][i % 3]
+                if isinstance(m.get(name), list):
+                    m[name].append({"mut": i})
+                    return True
+                return False
+            m["concept_nodes_count"] = 90 + i
+            return True
+        if k == "graph_key" and isinstance(g, dict):
+            g["nodes"] = {}
+            return True
+        if k.startswith("store") and store is not None:
+            if isinstance(store, _WStore):
+                if k == "store_clear":
+                    changed = bool(store.w)
+                    store.w.clear()
+                    return changed
+                ks = list(store.w.keys())
+                if k == "store_set" and ks and i % 2:
+                    store.w[ks[i % len(ks)]] = 7.5 + i
+                else:
+                    store.w[("node", "mut%d" % i, "weight")] = 9.0
+                return True
+            if isinstance(store, _OpaqueStore):
+                st = store.st
+                if isinstance(st, dict):
+                    for v in st.values():
+                        if isinstance(v, list):
+                            v.append("mut")
+                            return True
+                    st["mut"] = i
+                    return True
+                if isinstance(st, list):
+                    st.append("mut")
+                    return True
+            return False
+    except Exception:
+        return False
+    return False
+
+
+def _containers(obj, acc: dict) -> None:
+    if isinstance(obj, (dict, list)):
+        if id(obj) in acc:
+            return
+        acc[id(obj)] = obj
+        for v in (obj.values() if isinstance(obj, dict) else obj):
+            _containers(v, acc)
+
+
+def state_containers(state) -> dict:
+    acc: dict = {}
+    _containers(_graph_of(state), acc)
+    st = sget(state, "store")
+    if isinstance(st, _WStore):
+        _containers(st.w, acc)
+    elif isinstance(st, _OpaqueStore):
+        _containers(st.st, acc)
+    return acc
+
+
+class HistoryComp(Wrapped):
+    name = "snap.history"
+    budget = {"quick": 250, "thorough": 5000, "search": 2000}
+
+    def gen_raw(self, rng, i):
+        cfg = gen_validated_bounds(rng) if rng.random() < 0.2 else gen_bounds(rng)
+        lo, hi, _ = eff_bounds(cfg)
+        graph = gen_rich_gel(rng, lo, hi) if rng.random() < 0.75 else gen_gel(rng, lo, hi, rng.random() < 0.2)
+        r = rng.random()
+        if r < 0.45:
+            store = gen_store(rng)
+        elif r < 0.75:
+            store = {"kind": "wmap", "w": [[["node", x, "weight"], rng.choice([0.5, -1.25, 2])] for x in rng.sample(IDS, 3)]}
+        else:
+            store = {"kind": "opaque", "st": rng.choice([{"w": [1, 2.5, "é"], "n": {"k": None}}, [1, [2]], {"a": {}}])}
+        nloads = rng.choice([2, 2, 3, 4])
+        steps = []
+        for j in range(nloads - 1):
+            steps.append([{"op": rng.choice(MUT_OPS), "i": rng.randrange(0, 6), "target": rng.randrange(0, j + 1)}
+                          for _ in range(rng.choice([1, 2, 3, 5]))])
+        return {"cfg": cfg, "via": rng.choice(["cfg", "cfg", "config", "ns"]), "turn": rng.choice([0, 3, 17]),
+                "agent": rng.choice(["A", "agent", "é_1"]),
+                "version": rng.choice(["v1", "7", "é→", "etag-000123"]) if rng.random() < 0.9 else rng.choice([5, None]),
+                "applied": rng.choice([0, 2]), "deltas": rng.choice([None, []]),
+                "store": store, "as_dict": rng.random() < 0.4, "graph": graph, "gel": None,
+                "has_graph": True, "has_gel": False, "steps": steps}
+
+    def impl_raw(self, case):
+        from clematis.engine.snapshot import write_snapshot, load_latest_snapshot
+        d = _mkdtemp("hist_")
+        d2 = _mkdtemp("hist2_")
+        try:
+            with _Env():
+                ctx = mk_ctx(case, d)
+                ctx2 = mk_ctx(case, d2)
+                st0 = mk_state(case["as_dict"], mk_store(case["store"]), _copy(case["graph"]), None, True, False)
+                path = write_snapshot(ctx, st0, case["version"], case["applied"], delta_objs(case["deltas"]))
+                with open(path, "rb") as f:
+                    F = f.read()
+                stat0 = os.stat(path)
+                out: dict = {"F": F.decode("utf-8"), "p1": enc(json.loads(F.decode("utf-8"))), "loads": [], "rewrites": [],
+                             "shared": [], "applied_ops": []}
+                states: list = []
+                seen: dict = {}
+                nloads = len(case["steps"]) + 1
+                for j in range(nloads):
+                    fresh = mk_state(case["as_dict"], mk_store(case["store"], fresh=True), None, None, False, False)
+                    ret = load_latest_snapshot(ctx, fresh)
+                    g = sget(fresh, "graph")
+                    ver = sget(fresh, "version_etag", None)
+                    has_ver = ("version_etag" in fresh) if isinstance(fresh, dict) else hasattr(fresh, "version_etag")
+                    out["loads"].append({"version": cps(ver) if has_ver and isinstance(ver, str) else None,
+                                         "store": obs_store(sget(fresh, "store")), "graph": enc(g),
+                                         "loaded": ret["loaded"], "ver": enc(ret["version_etag"])})
+                    # identity walk: no mutable container of this state is one handed out before
+                    mine = state_containers(fresh)
+                    out["shared"].append(sorted(type(o).__name__ + ":" + json.dumps(enc(o))[:80] for i_, o in mine.items() if i_ in seen)[:5])
+                    seen.update(mine)
+                    states.append(fresh)
+                    # re-snapshot the freshly loaded state somewhere else: must reproduce F
+                    p2 = write_snapshot(ctx2, fresh, ver if has_ver else None, case["applied"], delta_objs(case["deltas"]))
+                    with open(p2, "rb") as f:
+                        out["rewrites"].append(f.read().decode("utf-8"))
+                    if j < nloads - 1:
+                        for op in case["steps"][j]:
+                            tgt = states[op["target"] % len(states)]
+                            if apply_mutation(tgt, op):
+                                out["applied_ops"].append(op["op"])
+                with open(path, "rb") as f:
+                    F_end = f.read()
+                stat1 = os.stat(path)
+                out["file_untouched"] = (F_end == F and (stat0.st_ino, stat0.st_mtime_ns, stat0.st_size)
+                                         == (stat1.st_ino, stat1.st_mtime_ns, stat1.st_size))
+                return out
+        finally:
+            shutil.rmtree(d, ignore_errors=True)
+            shutil.rmtree(d2, ignore_errors=True)
+
+    def request_raw(self, case):
+        return {"c": "snap.chain", "bounds": bounds_req(case["cfg"]), "created": cps(CREATED),
+                "in": ChainComp._write_in(case), "fresh": store_req(case["store"], fresh=True)}
+
+    def compare_raw(self, case, io, mo):
+        if isinstance(io, dict) and "__raised__" in io:
+            return f"implementation raised {io}"
+        if not isinstance(mo, dict) or "__model_err__" in mo:
+            return f"model error {mo}"
+        from harness.core import first_diff
+        if io["p1"] != mo.get("p1"):
+            return "file content: " + first_diff(io["p1"], mo.get("p1"))
+        # every load is the model's load of the file CONTENT, whatever happened to earlier states
+        for j, l in enumerate(io["loads"]):
+            if l != mo.get("l1"):
+                return f"load #{j} of the unchanged file: " + first_diff(l, mo.get("l1"))
+        for j, t in enumerate(io["rewrites"]):
+            if json.dumps(dec(mo["p2"])) != t:
+                return f"re-snapshot after load #{j} differs from json.dumps(model value)"
+        return None
+
+    def _hyp_fix(self, case) -> bool:
+        return isinstance(case["version"], str) and meta_ok(case["graph"])
+
+    def monitors_raw(self, case, io):
+        res = [("history_file_untouched", io["file_untouched"], "the snapshot file changed although nothing wrote it")]
+        l0 = io["loads"][0]
+        bad = [j for j, l in enumerate(io["loads"]) if l != l0]
+        res.append(("history_load_is_a_function_of_the_file", not bad,
+                    f"loads {bad} of the unchanged file differ from load 0 after in-place mutations {io['applied_ops']} of earlier loaded states"))
+        sh = [(j, s_) for j, s_ in enumerate(io["shared"]) if s_]
+        res.append(("history_no_shared_mutable_containers", not sh,
+                    f"containers of a loaded state are the same objects as containers of an earlier loaded state: {sh[:2]}"))
+        if self._hyp_fix(case):
+            badw = [j for j, t in enumerate(io["rewrites"]) if t != io["F"]]
+            res.append(("history_resnapshot_reproduces_file", not badw,
+                        f"write_snapshot of the state loaded by loads {badw} is not byte-identical to the file"))
+        else:
+            badw = [j for j, t in enumerate(io["rewrites"]) if t != io["rewrites"][0]]
+            res.append(("history_resnapshot_stable", not badw, f"re-snapshots {badw} differ from the first re-snapshot"))
+        return res
+
+    def monitor_requests_raw(self, case, io):
+        if not self._hyp_fix(case):
+            return []
+        return [("lean.fixpoint_on_impl_body",
+                 {"c": "snap.mon", "k": "fixpoint", "bounds": bounds_req(case["cfg"]),
+                  "in": ChainComp._write_in(case), "fresh": store_req(case["store"], fresh=True), "p": io["p1"]})]
+
+    def tags_raw(self, case, io):
+        t = {"op_" + o for o in io["applied_ops"]}
+        t.add("loads_%d" % len(io["loads"]))
+        if not io["applied_ops"]:
+            t.add("no_effective_mutation")
+        return sorted(t)
+
+    def shrink_raw(self, case):
+        steps = case["steps"]
+        if len(steps) > 1:
+            yield dict(case, steps=steps[:-1])
+            yield dict(case, steps=steps[1:] and [[dict(o, target=0) for o in st] for st in steps[1:]])
+        for a, st in enumerate(steps):
+            for b in range(len(st)):
+                if len(st) > 1:
+                    yield dict(case, steps=steps[:a] + [st[:b] + st[b + 1:]] + steps[a + 1:])
+        if case["store"]["kind"] != "absent":
+            yield dict(case, store={"kind": "absent"})
+        g = case.get("graph")
+        if isinstance(g, dict):
+            for k in ("edges", "nodes"):
+                v = g.get(k)
+                if isinstance(v, list):
+                    for i in range(len(v)):
+                        c = _copy(case)
+                        del c["graph"][k][i]
+                        yield c
+                elif isinstance(v, dict):
+                    for kk in list(v.keys()):
+                        c = _copy(case)
+                        del c["graph"][k][kk]
+                        yield c
+
 # --------------------------------------------------------------------------
 # component 2: the sanitisers called directly (malformed-heavy)
 # --------------------------------------------------------------------------
@@ -1371,7 +1696,7 @@ class RoundComp(Wrapped):
         return ["batch"]
 
 
-COMPONENTS = [ChainComp(), SanitizeComp(), LoadComp(), PickComp(), TempComp(), RoundComp()]
+COMPONENTS = [ChainComp(), HistoryComp(), SanitizeComp(), LoadComp(), PickComp(), TempComp(), RoundComp()]
 
 
 def _setup(ctx: Ctx) -> None:
